@@ -218,6 +218,21 @@ def systematic_flat():
     cases.append(case(F6, cross([1, 2, 3], [1, 3]), "A", ["window-of-window", "crossed"], "sys-ww-crossed"))
     cases.append(case(F6, cross([1, 2, 3], [3]), "A", ["window-of-window", "crossed"], "sys-ww-crossed-alone"))
     cases.append(case(F6, cross([1, 2, 3], [1]), "A", ["window-of-window", "uncrossed"], "sys-ww-uncrossed"))
+    # same with a grid whose variables-per-trial differs from the number of levels of the inner windowed factor
+    # (variables of complex-window factors have their own layout; FX14)
+    F7 = [basic("color", 3)]
+    F7.append(derived(F7, "rep", [1], "transition", table=eq_table(F7, [1], 2)))
+    F7.append(derived(F7, "chg", [2], "window", width=2, table=eq_table(F7, [2], 2)))
+    cases.append(case(F7, cross([1, 2, 3], [3]), "A", ["window-of-window", "crossed", "grid3"], "sys-ww3-crossed-alone"))
+    cases.append(case(F7, cross([1, 2, 3], [1], [K("AtMostKInARow", k=1, f=3, l=1), K("MinimumTrials", k=5)]), "A",
+                      ["window-of-window", "constrained", "grid3"], "sys-ww3-atmost"))
+    cases.append(case(F7, cross([1, 2, 3], [1], [K("MinimumTrials", k=4)]), "A", ["window-of-window", "implied", "grid3"], "sys-ww3-implied"))
+    F8 = [basic("a", 2), basic("b", 2)]
+    F8.append(derived(F8, "ra", [1], "transition", table=eq_table(F8, [1], 2)))
+    F8.append(derived(F8, "w3", [3], "window", width=3, table=eq_table(F8, [3], 3)))
+    cases.append(case(F8, cross([1, 2, 3, 4], [1], [K("AtMostKInARow", k=1, f=4, l=2), K("MinimumTrials", k=5)]), "A",
+                      ["window3-of-transition", "constrained", "grid4"], "sys-w3t-atmost"))
+    cases.append(case(F8, cross([1, 2, 3, 4], [4]), "A", ["window3-of-transition", "crossed", "grid4"], "sys-w3t-crossed"))
     # require_complete_crossing with impossible combinations
     Fi = [basic("a", 2), basic("b", 2)]
     Fi.append(derived(Fi, "e", [1, 2], "within", table=eq_table(Fi, [1, 2])))
@@ -286,6 +301,25 @@ def systematic_corner():
                         ("pin0", K("Pin", i=0, f=3, l=1)), ("pin-1", K("Pin", i=-1, f=3, l=1)), ("pin2", K("Pin", i=2, f=3, l=1))]:
             out.append(case(B + [f], cross([1, 2, 3], [1, 2], [con, K("MinimumTrials", k=6)]), "B", ["late-start", cn], "cor-start%d-%s" % (start, cn)))
             out.append(case(B + [f], cross([1, 2, 3], [2, 3], [con]), "B", ["late-start", "crossed", cn], "cor-start%d-x-%s" % (start, cn)))
+    # stride > 1 together with a start later than the default (FX15), small enough to be exhausted
+    A1 = [basic("a", 2)]
+    for stride, start in ((2, 2), (2, 3), (3, 2)):
+        f = derived(A1, "d", [1], "window", width=2, stride=stride, start=start, table=eq_table(A1, [1], 2))
+        for cn, con in [("exk1", K("ExactlyK", k=1, f=2, l=1)), ("excl", K("Exclude", f=2, l=1)), ("pin-1", K("Pin", i=-1, f=2, l=2))]:
+            out.append(case(A1 + [f], cross([1, 2], [1], [con, K("MinimumTrials", k=6)], cn != "excl"), "B",
+                            ["stride", "late-start", cn], "cor-stride%d-start%d-%s" % (stride, start, cn)))
+    # a within-trial factor over a basic factor and a Transition: it starts with the Transition (mixed readiness, FX15)
+    M = [basic("a", 3), basic("b", 2)]
+    M.append(derived(M, "tr", [1], "transition", table=eq_table(M, [1], 2)))
+    M.append(derived(M, "wt", [2, 3], "within", table=eq_table(M, [2, 3])))
+    out.append(case(M, cross([1, 2, 3, 4], [2], [K("MinimumTrials", k=3)]), "B", ["mixed-readiness", "implied"], "cor-mixed-implied"))
+    out.append(case(M, cross([1, 2, 3, 4], [2], [K("MinimumTrials", k=3), K("AtMostKInARow", k=1, f=4, l=1)]), "B",
+                    ["mixed-readiness", "AtMostKInARow"], "cor-mixed-atmost"))
+    out.append(case(M, cross([1, 2, 3, 4], [4], []), "B", ["mixed-readiness", "crossed"], "cor-mixed-crossed"))
+    out.append(case(M, cross([1, 2, 3, 4], [2], [K("MinimumTrials", k=3), K("Exclude", f=4, l=1)], False), "B",
+                    ["mixed-readiness", "Exclude"], "cor-mixed-excl"))
+    out.append(case(M, cross([1, 2, 3, 4], [2], [K("MinimumTrials", k=3), K("ExactlyK", k=1, f=4, l=2)]), "B",
+                    ["mixed-readiness", "ExactlyK"], "cor-mixed-exk"))
     # MinimumTrials below the crossing size, equal to it, 1
     for m in (1, 3, 4):
         out.append(case(F, cross(full, [1, 2], [K("MinimumTrials", k=m)]), "B", ["MinimumTrials", "small"], "cor-min%d" % m))
@@ -295,7 +329,7 @@ def systematic_corner():
 # ---------------------------------------------------------------------------------------------
 # seeded random flat designs, tier A
 
-def random_flat(rng, n, max_T=8):
+def random_flat(rng, n, max_T=8, min_T=0, est_cap=3e5):
     out = []
     tries = 0
     while len(out) < n and tries < n * 50:
@@ -310,12 +344,10 @@ def random_flat(rng, n, max_T=8):
             simple = [i + 1 for i in range(len(F)) if not is_complex(F, i + 1)]
             cand = simple if kind != "within" else list(range(1, len(F) + 1))
             if kind == "within":
-                # a within-trial level of a stride-1 factor; keep to deps of equal readiness
+                # a within-trial level; its dependencies may be ready at different trials (it starts with the latest)
                 cand = [i + 1 for i in range(len(F))]
             ndeps = rng.choice([1, 2]) if len(cand) >= 2 else 1
             deps = sorted(rng.sample(cand, ndeps))
-            if kind == "within" and len(set(ready_at(F, g) for g in deps)) > 1:
-                continue
             name = "d%d" % (j + 1)
             if kind == "window":
                 width = rng.choice([2, 3])
@@ -361,7 +393,7 @@ def random_flat(rng, n, max_T=8):
             mt = rng.randrange(T + 1, max_T + 1)
             cons.append(K("MinimumTrials", k=mt))
             T = mt
-        if T > max_T:
+        if T > max_T or T < min_T:
             continue
         # keep the search space enumerable: uncrossed basic factors multiply the solution count by nl^T
         unc = [i for i in ids if F[i - 1]["kind"] == "b" and i not in X]
@@ -370,7 +402,7 @@ def random_flat(rng, n, max_T=8):
             est *= len(F[i - 1]["levels"]) ** T
         import math
         est *= math.factorial(min(size, T)) if size <= 8 else 1e9
-        if est > 3e5:
+        if est > est_cap:
             continue
         nc = rng.choice([0, 1, 1, 2])
         rcc = True
@@ -411,6 +443,79 @@ def random_flat(rng, n, max_T=8):
         blk = cross(ids, X, cons, rcc)
         tags = sorted(set([c["c"] for c in cons] + [F[i - 1].get("dkind", "basic") for i in ids]))
         out.append(case(F, blk, "A", tags, "rnd-%d" % len(out)))
+    return out
+
+
+# ---------------------------------------------------------------------------------------------
+# large designs (9..24 trials): beyond exhaustive set comparison; used by the simulation phase (checks_large.py)
+
+def large_cases(rng, n_random=0):
+    out = []
+
+    def add(name, F, blk, tags):
+        out.append(case(F, blk, "A", tags, "lg-" + name))
+
+    for (nc, nw) in ((3, 3), (3, 4), (4, 4), (2, 5)):
+        F = stroop(nc, nw)
+        T = nc * nw
+        add("stroop%dx%d" % (nc, nw), F, cross([1, 2, 3, 4], [1, 2]), ["within", "transition"])
+        add("stroop%dx%d-atmost-cong" % (nc, nw), F, cross([1, 2, 3, 4], [1, 2], [K("AtMostKInARow", k=1, f=3, l=1)]),
+            ["within", "AtMostKInARow"])
+        add("stroop%dx%d-atmost-rep" % (nc, nw), F, cross([1, 2, 3, 4], [1, 2], [K("AtMostKInARow", k=1, f=4, l=1)]),
+            ["transition", "AtMostKInARow"])
+        add("stroop%dx%d-exk-rep" % (nc, nw), F, cross([1, 2, 3, 4], [1, 2], [K("ExactlyK", k=2, f=4, l=1)]),
+            ["transition", "ExactlyK"])
+        add("stroop%dx%d-atleast" % (nc, nw), F, cross([1, 2, 3, 4], [1, 2], [K("AtLeastKInARow", k=2, f=1, l=1)]),
+            ["AtLeastKInARow"])
+        add("stroop%dx%d-exrow" % (nc, nw), F, cross([1, 2, 3, 4], [1, 2], [K("ExactlyKInARow", k=2, f=3, l=2)]),
+            ["ExactlyKInARow"])
+        add("stroop%dx%d-pin-excl" % (nc, nw), F,
+            cross([1, 2, 3, 4], [1, 2], [K("Pin", i=-1, f=1, l=1), K("Exclude", f=4, l=1)], rcc=False), ["Pin", "Exclude"])
+        add("stroop%dx%d-mt" % (nc, nw), F, cross([1, 2, 3, 4], [1, 2], [K("MinimumTrials", k=T + 5)]), ["MinimumTrials"])
+        add("stroop%dx%d-xrep" % (nc, nw), F, cross([1, 2, 3, 4], [2, 4]), ["transition-crossed"])
+        add("stroop%dx%d-xcong" % (nc, nw), F, cross([1, 2, 3, 4], [3, 4], [K("MinimumTrials", k=10)]),
+            ["derived-crossed", "MinimumTrials"])
+        add("stroop%dx%d-xrep-excl" % (nc, nw), F, cross([1, 2, 3, 4], [2, 4], [K("Exclude", f=2, l=1)], rcc=False),
+            ["transition-crossed", "Exclude"])
+        add("stroop%dx%d-xrep-excl-cong" % (nc, nw), F, cross([1, 2, 3, 4], [2, 4], [K("Exclude", f=3, l=1)], rcc=False),
+            ["transition-crossed", "Exclude-derived"])
+    # window over a transition, in the crossing
+    F = [basic("a", 3), basic("b", 2)]
+    F.append(derived(F, "tr", [1], "transition", table=eq_table(F, [1], 2)))
+    F.append(derived(F, "ww", [3], "window", width=2, table=eq_table(F, [3], 2)))
+    add("win-over-trans", F, cross([1, 2, 3, 4], [2, 4], [K("MinimumTrials", k=10)]), ["window-of-window"])
+    add("win-over-trans-x", F, cross([1, 2, 3, 4], [1, 4]), ["window-of-window"])
+    add("win-over-trans-atmost", F, cross([1, 2, 3, 4], [1, 2], [K("AtMostKInARow", k=1, f=4, l=1), K("MinimumTrials", k=10)]),
+        ["window-of-window", "AtMostKInARow"])
+    # three basic factors, window of width 3, stride 2
+    F = [basic("a", 2), basic("b", 3), basic("c", 2)]
+    F.append(derived(F, "w3", [1], "window", width=3, table=eq_table(F, [1], 3)))
+    F.append(derived(F, "s2", [2], "window", width=2, stride=2, table=eq_table(F, [2], 2)))
+    add("abc-windows", F, cross([1, 2, 3, 4, 5], [1, 2, 3]), ["window3", "stride2"])
+    add("abc-windows-atmost", F, cross([1, 2, 3, 4, 5], [1, 2, 3], [K("AtMostKInARow", k=2, f=4, l=2)]),
+        ["window3", "AtMostKInARow"])
+    add("abc-ab-seq", F, cross([1, 2, 3, 4, 5], [1, 2], [K("Sequential", f=3), K("MinimumTrials", k=12)]),
+        ["Sequential", "MinimumTrials"])
+    add("abc-xw3", F, cross([1, 2, 3, 4], [2, 4, 3]), ["window-crossed"])
+    # combinators with sustain 1
+    import gen_blocks as gb
+    F = stroop(2, 3)
+    inner = cross([1, 2, 3, 4], [1, 2], [K("AtMostKInARow", k=1, f=3, l=1)])
+    add("repeat-stroop2x3", F, gb.rep(dict(inner, cons=inner["cons"] + [K("MinimumTrials", k=18)])), ["Repeat"])
+    add("repeat-out-atmost", F, gb.rep(cross([1, 2, 3, 4], [1, 2], [K("MinimumTrials", k=12)]),
+                                      [K("AtMostKInARow", k=2, f=2, l=0)]), ["Repeat", "outer-constraint"])
+    add("repeat-xrep-in-atmost", F, gb.rep(cross([1, 2, 3, 4], [2, 4], [K("AtMostKInARow", k=1, f=1, l=1),
+                                                                      K("MinimumTrials", k=14)])), ["Repeat", "transition-crossed"])
+    add("repeat-xrep-out-exk", F, gb.rep(cross([1, 2, 3, 4], [2, 4], [K("MinimumTrials", k=14)]),
+                                         [K("AtMostKInARow", k=2, f=3, l=2)]), ["Repeat", "transition-crossed"])
+    F = [basic("a", 3), basic("b", 3), basic("c", 2)]
+    F.append(derived(F, "t", [3], "transition", table=eq_table(F, [3], 2)))
+    add("multi-ab-ac", F, gb.multi([1, 2, 3, 4], [[1, 2], [1, 3]]), ["Multi"])
+    add("multi-ab-bt", F, gb.multi([1, 2, 3, 4], [[1, 2], [2, 4]], [K("AtMostKInARow", k=2, f=1, l=0)]),
+        ["Multi", "transition-crossed"])
+    for c in random_flat(rng, n_random, max_T=16, min_T=9, est_cap=1e30):
+        c["id"] = "lg-" + c["id"]
+        out.append(c)
     return out
 
 
